@@ -214,6 +214,9 @@ func (x *Exec) vrtCall(g *G, fn *ssa.Function, args []Value) Value {
 	case "vAllowIDCollisions":
 		x.allowIDCollide = args[0].(*Term).IsTrue()
 		return nil
+	case "vConcreteRandomIDs":
+		x.concRandom = args[0].(*Term).IsTrue()
+		return nil
 	case "vNote":
 		x.notes = append(x.notes, x.strArg(args[0]))
 		return nil
@@ -413,7 +416,7 @@ func (h *Harness) wantCoverWitness(label string) bool {
 func (h *Harness) runPath(ps *PathSolver, prefix []int) (res *PathResult) {
 	res = &PathResult{}
 	x := &Exec{P: h.P, H: h, sv: ps, prefix: prefix, globals: map[*ssa.Global]*Value{},
-		covers: map[string]bool{}, natives: map[*Value]*Native{}, natTimers: map[*Value]*Timer{}, sleeping: map[*G]*bool{}, funcsHit: map[*ssa.Function]int{}, res: res}
+		covers: map[string]bool{}, natives: map[*Value]*Native{}, natTimers: map[*Value]*Timer{}, encoded: map[*Str][]*Term{}, sleeping: map[*G]*bool{}, funcsHit: map[*ssa.Function]int{}, res: res}
 	x.now = MkBV(64, 1_000_000_000_000_000)
 	x.preemptBudget = 0
 	ps.begin()
